@@ -19,5 +19,11 @@ for base in ("hugr-py/src/hugr", "scripts"):
                 else:
                     walk(n, cls)
         walk(t, None)
+        # module-level names (constants, aliases): "const:<name>"
+        for n in t.body:
+            tg = n.targets if isinstance(n, ast.Assign) else ([n.target] if isinstance(n, ast.AnnAssign) else [])
+            for x in tg:
+                if isinstance(x, ast.Name):
+                    names.add(f"const:{x.id}")
 Path(__file__).resolve().parent.parent.joinpath("hv/known_defs.json").write_text(json.dumps(sorted(names), indent=0))
 print(len(names))
